@@ -137,6 +137,17 @@ def probe_projects():
         add("channel-type", cls, use, defs + "use tauri::ipc::Channel;\n" + rg.command_src("get_item", [("id", "i32"), ("ch", "Channel<%s>" % use)], "Item"))
         add("event-payload-type", cls, use, defs + rg.command_src("get_item", [("id", "i32")], "Item") +
             "pub fn notify(app: tauri::AppHandle, p: %s) {\n    app.emit(\"borrowed\", p).unwrap();\n}\n\n" % use)
+    # --- fixed-size arrays and slices (serde handles both; the '; N' of the Rust syntax must not reach the output)
+    for use in ("[u8; 32]", "[f32; 3]", "[[f32; 4]; 4]", "Vec<[u8; 16]>", "Option<[i32; 2]>", "&'static [u8]", "HashMap<String, [u8; 4]>", "([u8; 2], String)",
+                "[Item; 2]", "[Option<Item>; 2]", "[u8; N]", "[u8; 2 * 16]", "Vec<&'static [i32]>"):
+        cls = "slice" if "; " not in use else "fixed-size-array"
+        defs = rg.struct_src("Item", [("a", "i32")])
+        add("param-type", cls, use, defs + rg.command_src("get_item", [("req", use.replace("&'static ", "&"))], "Item"))
+        add("return-type", cls, use, defs + rg.command_src("get_item", [("id", "i32")], use))
+        add("field-type", cls, use, defs + raw_struct("Holder", [("h", use)]) + rg.command_src("get_item", [("id", "i32")], "Holder"))
+        add("channel-type", cls, use, defs + "use tauri::ipc::Channel;\n" + rg.command_src("get_item", [("id", "i32"), ("ch", "Channel<%s>" % use)], "Item"))
+        add("event-payload-type", cls, use, defs + rg.command_src("get_item", [("id", "i32")], "Item") +
+            "pub fn notify(app: tauri::AppHandle, p: %s) {\n    app.emit(\"arr\", p).unwrap();\n}\n\n" % use.replace("&'static ", "&"))
     # --- events
     for cls, names in EVENT_NAMES:
         for nm in names:
